@@ -4,9 +4,11 @@ import (
 	"bytes"
 	"encoding/json"
 	"fmt"
+	"time"
 
 	abci "github.com/cometbft/cometbft/abci/types"
 	sdk "github.com/cosmos/cosmos-sdk/types"
+	goatmodtypes "github.com/goatnetwork/goat/x/goat/types"
 	"verifharness/enga"
 	"verifharness/mc"
 	"verifharness/sim"
@@ -292,6 +294,92 @@ func c09FaultEnum(r *mc.Run, w *enga.World, path []enga.ABlock, b enga.ABlock) {
 	})
 }
 
+// c09Stale presents, to the application instance that verified and executed them, payloads
+// that were well-formed proposals for an earlier height: the payload just committed, and a
+// sibling that was accepted in another round of the same height but not decided. Whatever
+// an instance remembers from ProcessProposal, at the next height such a payload is not a
+// child of the recorded head: ProcessProposal must reject it, its message must fail when
+// the block is finalised anyway, and the head must stay where it is.
+func c09Stale(r *mc.Run, w *enga.World, path []enga.ABlock) {
+	for _, variant := range []string{"committed-payload-again", "undecided-sibling", "undecided-sibling-verified-last"} {
+		x, err := w.Fork()
+		must(err)
+		viol := func(cls, msg string) {
+			r.Violate(mc.Violation{Class: cls + ":" + variant, Msg: fmt.Sprintf("%s | stale proposal %s | history %v", msg, variant, aPath(path)), Detail: engaDetail{Path: path, Note: "stale proposal " + variant}}, nil)
+		}
+		blk := &sim.Block{TimeDelta: time.Second}
+		txA, pA, err := x.N.BuildEthBlockTx(sim.EthBlockOpts{})
+		must(err)
+		txB, pB, err := x.N.BuildEthBlockTx(sim.EthBlockOpts{Rehash: true, MutatePayload: func(p *goatmodtypes.ExecutionPayload) { p.Timestamp++ }})
+		must(err)
+		accept := func(txs [][]byte) bool {
+			pr, err := x.N.Process(blk, txs)
+			r.Transitions.Add(1)
+			r.Validated.Add(1)
+			return err == nil && pr.Status == abci.ResponseProcessProposal_ACCEPT
+		}
+		okA, okB := true, true
+		switch variant {
+		case "committed-payload-again":
+			okA = accept([][]byte{txA})
+		case "undecided-sibling":
+			okB = accept([][]byte{txB})
+			okA = accept([][]byte{txA})
+		case "undecided-sibling-verified-last":
+			okA = accept([][]byte{txA})
+			okB = accept([][]byte{txB})
+		}
+		if !okA || !okB {
+			// a sibling that differs in its timestamp only is as well-formed as the original
+			viol("well-formed-proposal-rejected", fmt.Sprintf("original accepted=%v sibling accepted=%v %s", okA, okB, x.N.LoggedErrors()))
+			x.Close()
+			continue
+		}
+		fr, err := x.N.Finalize(blk, [][]byte{txA})
+		if err != nil || fr.TxResults[0].Code != 0 {
+			viol("decided-proposal-not-executed", fmt.Sprintf("err=%v", err))
+			x.Close()
+			continue
+		}
+		must(x.N.Commit(blk, [][]byte{txA}, fr))
+		pre := x.Head()
+		if !bytes.Equal(pre.Block.BlockHash, pA.BlockHash) {
+			viol("head-is-not-the-decided-payload", fmt.Sprintf("head %x, decided %x", pre.Block.BlockHash, pA.BlockHash))
+		}
+		stale := pA
+		if variant != "committed-payload-again" {
+			stale = pB
+		}
+		blk2 := &sim.Block{TimeDelta: time.Second}
+		txS, _, err := x.N.BuildEthBlockTx(sim.EthBlockOpts{Payload: stale})
+		must(err)
+		pr, perr := x.N.Process(blk2, [][]byte{txS})
+		r.Transitions.Add(1)
+		r.Validated.Add(1)
+		if perr == nil && pr.Status == abci.ResponseProcessProposal_ACCEPT {
+			viol("stale-proposal-accepted", "ProcessProposal answered ACCEPT for a payload that does not extend the head")
+		}
+		fr2, ferr := x.N.Finalize(blk2, [][]byte{txS})
+		if ferr == nil {
+			if fr2.TxResults[0].Code == 0 {
+				viol("stale-execution-block-message-succeeds", "the message of a payload that is not a child of the recorded head returned code 0")
+			}
+			must(x.N.Commit(blk2, [][]byte{txS}, fr2))
+			post := x.Head()
+			if !bytes.Equal(post.Block.BlockHash, pre.Block.BlockHash) {
+				viol("head-moved-by-stale-proposal", fmt.Sprintf("head %x -> %x", pre.Block.BlockHash, post.Block.BlockHash))
+			}
+			if !bytes.Equal(post.Beacon, pre.Beacon) {
+				viol("beacon-root-moved-by-stale-proposal", fmt.Sprintf("beacon root %x -> %x although no payload was applied", pre.Beacon, post.Beacon))
+			}
+			r.Outcome("stale-proposal-without-effect")
+		} else {
+			r.Outcome("stale-proposal-aborts-block")
+		}
+		x.Close()
+	}
+}
+
 func runC09(r *mc.Run) {
 	depth, faultDepth := 3, 1
 	if r.Thorough() {
@@ -302,7 +390,7 @@ func runC09(r *mc.Run) {
 	}
 	r.Bounds["depth_blocks"] = depth
 	r.Bounds["fault_enumeration_history_depth"] = faultDepth
-	r.Rule = "tree search over block histories of the real application (real PrepareProposal/ProcessProposal/FinalizeBlock/Commit, fake execution layer over IPC) with the head monitor on every finalised block; at every node up to the fault depth, for every menu block, every placement of one engine fault (error, INVALID, SYNCING, ACCEPTED, missing payload id, stall past the 1.2 s deadline) on each of the 5 engine calls; aborted blocks are retried (after a restart when FinalizeBlock failed) and compared with a fault-free replica"
+	r.Rule = "tree search over block histories of the real application (real PrepareProposal/ProcessProposal/FinalizeBlock/Commit, fake execution layer over IPC) with the head monitor on every finalised block; at every node up to the fault depth, for every menu block, every placement of one engine fault (error, INVALID, SYNCING, ACCEPTED, missing payload id, stall past the 1.2 s deadline) on each of the 5 engine calls; at every node one level deeper, stale proposals put to the same application instance that verified them (the committed payload again; a sibling accepted in another round but not decided, verified before / after the decided one): rejected, message fails when finalised anyway, head and beacon root unmoved; aborted blocks are retried (after a restart when FinalizeBlock failed) and compared with a fault-free replica"
 	r.Assumptions = []string{"single validator = proposer of every block", "ELSim defines the well-behaved engine", "pairs of faults are explored from the initial state in the thorough tier only"}
 	var explore func(r *mc.Run, only []enga.ABlock)
 	explore = func(r *mc.Run, only []enga.ABlock) {
@@ -342,10 +430,16 @@ func runC09(r *mc.Run) {
 						c09FaultEnum(r, child, path, fb)
 					}
 				}
+				if len(path) <= faultDepth+1 {
+					c09Stale(r, child, path)
+				}
 				return true
 			},
 		}
 		// faults from the initial state too
+		if only == nil {
+			c09Stale(r, root, nil)
+		}
 		for _, fb := range faultBlocks {
 			if only != nil {
 				break
